@@ -75,3 +75,12 @@ Example normalize_example :
   | _ => False
   end.
 Proof. vm_compute. split; reflexivity. Qed.
+
+From GFS Require Import AuditProofs.
+
+(** stripping leading zeros from the padded inverted range gives the unpadded one *)
+Theorem padded_inverse_differs_by_leading_zeros_only : forall f w,
+  strip_leading_zeros (fs_inverted_frame_range f w) = fs_range (fs_invert f).
+Proof. exact inverted_padded_differs_by_leading_zeros_only. Qed.
+Print Assumptions padded_inverse_differs_by_leading_zeros_only.
+
